@@ -46,7 +46,7 @@ const (
 type pexpr struct {
 	s    string
 	prec int
-	kind int // 0 plain, 1 starts with { / function / class (needs parens at statement start), 2 nullish-mixing hazard (|| or &&), 3 is ?? , 4 unary (hazard for ** left)
+	kind int  // 0 plain, 1 starts with { / function / class (needs parens at statement start), 2 nullish-mixing hazard (|| or &&), 3 is ?? , 4 unary (hazard for ** left)
 	opt  bool // contains a top-level optional chain
 }
 
@@ -68,8 +68,8 @@ type pfn struct {
 
 type pfnctx struct {
 	async, gen, hasThis, inClassCtor, derived, hasSuperProp bool
-	labels                                                   []string
-	loopDepth, switchDepth                                   int
+	labels                                                  []string
+	loopDepth, switchDepth                                  int
 }
 
 type progen struct {
